@@ -64,6 +64,9 @@ type Config struct {
 	GCTicks []int `json:"gc_ticks,omitempty"` // runtime.GC() at these tick numbers (ascending)
 	Ballast int   `json:"ballast,omitempty"`  // bytes allocated before the run to shift heap addresses
 
+	// TZOffsetMin: the process's local time zone (time.Local) as minutes east of UTC.
+	TZOffsetMin int `json:"tz_offset_min,omitempty"`
+
 	// GCOff: the Go collector runs only at GCTicks (heap growth never triggers it),
 	// so which allocations may reuse which addresses is decided by the schedule.
 	GCOff bool `json:"gc_off,omitempty"`
@@ -202,6 +205,9 @@ func Run(c Config, main func()) (res Result) {
 	}
 	log.SetOutput(Stderr)
 	log.SetFlags(0)
+	oldLocal := time.Local
+	time.Local = time.FixedZone(fmt.Sprintf("SIM%+d", c.TZOffsetMin), c.TZOffsetMin*60)
+	defer func() { time.Local = oldLocal }()
 	if c.GCOff {
 		runtime.GC()
 		old := debug.SetGCPercent(-1)
